@@ -86,11 +86,19 @@ def gen_lookup(rng):
         top = {'k': 'mod', 'attr': 'emdverif_deep', 'mid': st.newm(), 'hook': 'True', 'members': inner}
         st.mods[top['mid']] = top
         tops.append(top)
-    if rng.random() < 0.3 and st.mods:       # one module referenced a second time: shared, or a cycle back to an ancestor
-        src = st.mods[rng.choice(sorted(st.mods))]
+    reach = {}
+    def index(m):
+        reach[m['mid']] = m
+        for mem in m['members']:
+            if mem['k'] == 'mod' and mem['mid'] not in reach:
+                index(mem)
+    for t in tops:
+        index(t)
+    if rng.random() < 0.3 and reach:         # one module referenced a second time: shared, or a cycle back to an ancestor
+        src = reach[rng.choice(sorted(reach))]
         attr = rng.choice(ATTRNAMES)
         if attr not in {m['attr'] for m in src['members']}:
-            src['members'].append({'k': 'ref', 'attr': attr, 'mid': rng.choice(sorted(st.mods))})
+            src['members'].append({'k': 'ref', 'attr': attr, 'mid': rng.choice(sorted(reach))})
     return {'kind': 'lookup', 'tops': tops, 'nclasses': st.cid}
 
 
